@@ -123,10 +123,62 @@ class LadderA(core.Layer):
                           case['peaks'], case['reverse'], None)
 
 
+class JoinSeam(core.Layer):
+    """rows joined by AlignmentResults.resolve from a first- and a second-pass row of one two-part lattice molecule (mc/joinseam.py):
+    every joined row must be a valid matching"""
+    name = 'A:join-seam'
+    optional = False
+
+    def __init__(self):
+        from mc import joinseam
+        self.cases = joinseam.cases()
+        self.chunk = 12
+        self.bounds = dict(cases=len(self.cases), parts=[joinseam.N1, list(joinseam.N2S)], placements='collinear with 0/1/3/6 labels between, transposed with 0/1/3',
+                           gaps=['true', 'insertion', 'small'], strands=['+', '-'], maxDifference=[0, 4000, 1000000])
+        self.rule = '%d two-part molecules (placement x order of the parts x gap x strand x maxDifference) through align / getUnalignedFragments / align / resolve' % len(self.cases)
+
+    def nblocks(self):
+        return (len(self.cases) + self.chunk - 1) // self.chunk
+
+    def run_block(self, b, acc):
+        for c in self.cases[b * self.chunk:(b + 1) * self.chunk]:
+            acc.seq += 1
+            check_join(c, acc)
+
+    def replay(self, case):
+        c = case['case']
+        return check_join((c['first_pass_part'][0], c['other_part'][0], c['first_pass_part_leads'], c['gap'], c['reverse'], c['maxDifference'], c.get('junk', 0), c['other_part'][1]), None)
+
+
+@core.guarded(lambda c, *a: dict(kind='join', case=__import__('mc.joinseam', fromlist=['x']).describe(c)))
+def check_join(c, acc):
+    from mc import joinseam
+    o = joinseam.run(c)
+    found = []
+    case = dict(kind='join', case=joinseam.describe(c))
+    for j in o['joined']:
+        for p in matching_problems(j['pairs'], len(joinseam.REF), 1, o['n'], j['reverse']):
+            found.append(('joined:' + p, 'joined %s from first-pass %s and second-pass %s' % (j['pairs'], o['first'], o['second']), 'join',
+                          {'strand': '-' if j['reverse'] else '+'}))
+        if not j['pairs']:
+            found.append(('joined:no-pair', '', 'join', {}))
+    if acc is not None:
+        acc.evals += 1
+        acc.transitions += 2 + len(o['second']) + len(o['joined'])
+        acc.state(('j', len(o['first']), tuple(len(x) for x in o['second']), tuple(len(j['pairs']) for j in o['joined'])))
+        if o['second']:
+            acc.nontriv(('j',) + tuple(c))
+        acc.classes['join-seam:joined' if o['joined'] else ('join-seam:two-rows-not-joined' if o['second'] else 'join-seam:one-row')] += 1
+        for f in found:
+            acc.viol(f[0], case, f[1], f[2], f[3])
+        acc.sample(case)
+    return found
+
+
 def layers(tier, seed):
     from mc import e2e
     if tier == 'quick':
         return [LayerA('A:NR5,NQ4', 5, 4, CONFIGS[:3], (4, 6)), LayerA('A:coincident,NR4,NQ3', 4, 3, CONFIGS[:2], (6,), coincident=True),
-                LadderA('A:indel-ladders', False, CONFIGS[:3])] + e2e.c01_layers(tier, seed)
-    return [LayerA('A:NR5,NQ4', 5, 4, CONFIGS, (4, 6)), LayerA('A:coincident,NR5,NQ4', 5, 4, CONFIGS[:3], (4, 6), coincident=True), LadderA('A:indel-ladders', True, CONFIGS), LayerA('A:NR6,NQ5', 6, 5, CONFIGS, (4, 6))] + e2e.c01_layers(tier, seed) + \
+                LadderA('A:indel-ladders', False, CONFIGS[:3]), JoinSeam()] + e2e.c01_layers(tier, seed)
+    return [LayerA('A:NR5,NQ4', 5, 4, CONFIGS, (4, 6)), LayerA('A:coincident,NR5,NQ4', 5, 4, CONFIGS[:3], (4, 6), coincident=True), LadderA('A:indel-ladders', True, CONFIGS), JoinSeam(), LayerA('A:NR6,NQ5', 6, 5, CONFIGS, (4, 6))] + e2e.c01_layers(tier, seed) + \
            [LayerA('A:NR7,NQ5', 7, 5, CONFIGS[:3], (4, 6), optional=True)]
